@@ -183,7 +183,7 @@ EstFits(e) == (e.k < 1 \/ e.k > e.n) \/
               \A j \in 1..Len(e.preds) : Fits(e.weight, Keys(e.metric, e.p, e.X, e.preds[j].q), e.y, e.k)
 
 (* more than one k-nearest set exists: the k-th key also occurs beyond position k *)
-KthTied(keys, k) == Cardinality({ i \in 1..Len(keys) : keys[i] <= KthKey(keys, k) }) > k
+KthTied(keys, k) == CountLeq(keys, KthKey(keys, k)) > k      \* (argument: evaluated once)
 
 EstHits(e, clause) ==
     IF clause = "unconstrained" THEN [x \in {"EstUnconstrained"} |-> 1]
@@ -246,7 +246,7 @@ HitNames == {"Sweep", "Find", "FindErr", "Radius", "RadiusErr", "RadiusAt", "Tie
              "EstN1clscover", "EstN1regcover", "EstN1clslinear", "EstN1reglinear",
              "EstIdentclscover", "EstIdentregcover", "EstIdentclslinear", "EstIdentreglinear",
              "EstWeightBeforeDistancecls", "EstWeightBeforeDistancereg", "EstViaFields", "EstDefaultMetric",
-             "EstBatchOver256", "EstBatchOver512", "EstTrainOver256", "EstApiinherent", "EstApitrait",
+             "EstSignedZeroLabels", "EstBatchOver256", "EstBatchOver512", "EstTrainOver256", "EstApiinherent", "EstApitrait",
              "NOver256cover", "NOver256linear", "NOver1024cover", "NOver1024linear",
              "KnnPredict", "ClsPred", "RegPred", "EstErr", "EstUnconstrained", "EstTieAtK", "EstDistance", "EstFail", "EstSkipped"}
 
@@ -300,6 +300,7 @@ EstTags(e, c) ==
       \cup (IF c = "ok" /\ e.k >= 1 /\ e.k <= e.n /\ e.batchLen > 512 THEN {"EstBatchOver512"} ELSE {})
       \cup (IF c = "ok" /\ e.k >= 1 /\ e.k <= e.n /\ e.n > 256 THEN {"EstTrainOver256"} ELSE {})
       \cup (IF c = "ok" /\ e.fit = "ok" THEN {"EstApi" \o e.api} ELSE {})
+      \cup (IF c = "ok" /\ e.k >= 1 /\ e.k <= e.n /\ e.signedZeroLabels THEN {"EstSignedZeroLabels"} ELSE {})
       \cup (IF c = "ok" /\ e.viaFields THEN {"EstViaFields"} ELSE {})
       \cup (IF c = "ok" /\ e.defaultMetric THEN {"EstDefaultMetric"} ELSE {})
 
